@@ -29,6 +29,11 @@ class Stream:
     def finding(self, case, out, viol): return None     # id of an open known finding this violation matches
 
 
+def _short(x, n=2500):
+    t = json.dumps(x, default=str)
+    return x if len(t) <= n else t[:n] + ' ...[truncated, %d chars]' % len(t)
+
+
 def _work(args):
     modname, sname, case = args
     mod = importlib.import_module(modname)
@@ -78,7 +83,7 @@ def run_stream(mod, st, rep, tier, seed, pool, extra_round=0):
         if nk is not None:
             rep.nontrivial.add((st.name, nk))
         if len([s for s in rep.samples if s.get('stream') == st.name]) < 2:
-            rep.samples.append(dict(stream=st.name, case=c, impl_output=out))
+            rep.samples.append(dict(stream=st.name, case=_short(c), impl_output=_short(out)))
         for v in viol:
             fid = st.finding(c, out, v)
             if fid is not None and fid in open_ids:
